@@ -19,7 +19,8 @@ RULE = (
     "independent reference (Tian-Pearl/Huang-Valtorta c-component criterion cross-checked against a set-level "
     "Shpitser-Pearl recursion; the reference's 'identifiable' claims are certified numerically in the self-check); "
     "(c) purity: node list, both edge lists and the query sets/objects are snapshotted before and compared after, and a "
-    "second call (and a call on an insertion-order-permuted copy) gives the same verdict / equal estimand. Exhaustive over "
+    "second call (and a call on an insertion-order-permuted copy, and on the same graph grown incrementally with add_* calls "
+    "interleaved with read-only queries) gives the same verdict / equal estimand. Exhaustive over "
     "all ADMGs on 3 labelled nodes x all (X,Y). Non-trivial = graph has >=1 bidirected edge and the query survives "
     "lines 1-3 (a hedge test or c-component decomposition is reached) or the graph has an isolated node / a "
     "non-ancestor treatment; distinct = distinct (graph, X, Y)."
@@ -188,6 +189,20 @@ def check(case) -> Outcome:
         return fail("verdict-not-stable", second=r3 is not None, reinserted=r4 is not None)
     if r1 is not None and r3 != r1:
         return fail("estimand-not-deterministic", first=r1.to_y0(), second=r3.to_y0())
+    # identifiability is a property of (G, X, Y) alone: a graph grown step by step with add_* calls and read-only
+    # queries in between must give the same verdict as the graph built in one go
+    from ..y0util import build_graph_incremental
+
+    try:
+        ginc = build_graph_incremental(g)
+        with ReentryGuard(id_std, "identify", identification_key):
+            r5 = identify_outcomes(ginc, xset, yset)
+    except Exception as e:
+        return fail("incrementally-built-graph-raised", exc=repr(e)[:300])
+    if not (ginc == graph and graph == ginc):
+        return fail("incrementally-built-graph-differs-from-from_edges")
+    if (r5 is None) != (r1 is None):
+        return fail("verdict-depends-on-how-the-graph-object-was-built", one_go=r1 is not None, incremental=r5 is not None)
     out.nontrivial = (bool(g["bi"]) and (not ref or nd >= 2)) or iso or non_anc
     out.labels = sorted(labels)
     return out
